@@ -1,0 +1,18 @@
+//go:build verif
+
+package fio
+
+// VerifIO, when set by a verification harness, is called at the entry
+// (phase 0) and at the exit (phase 1) of every I/O call of both back-ends.
+// kind is one of open, write, sync, close, truncate; n is the byte count of
+// a write (or the target size of a truncate).
+var VerifIO func(phase int, kind string, name string, n int64)
+
+func verifIO(kind string, name string, n int64) func() {
+	f := VerifIO
+	if f == nil {
+		return func() {}
+	}
+	f(0, kind, name, n)
+	return func() { f(1, kind, name, n) }
+}
